@@ -67,6 +67,8 @@ fn probe(k: usize, mark: u64) {
 pub static SREG: [AtomicU64; 6] = [Z; 6];
 pub static TR: AtomicU64 = AtomicU64::new(0);
 pub static GDTR: [AtomicU64; 2] = [Z; 2];
+/// non-zero while a driver guarantees that GDTR describes readable and writable memory
+pub static LTR_MARKS_BUSY: AtomicU64 = AtomicU64::new(0);
 pub static IDTR: [AtomicU64; 2] = [Z; 2];
 pub static PORT_SEQ: AtomicU64 = AtomicU64::new(0);
 /// msr value used for indices that were never written (so that reads are distinguishable)
@@ -444,7 +446,18 @@ pub unsafe fn emulate(_sig: i32, _code: i32, _addr: u64, uc: *mut libc::ucontext
                     if (modrm >> 3) & 7 == 3 && modrm >> 6 == 3 {
                         let v = greg(uc, ((modrm & 7) as usize) | ((rex & 1) as usize) << 3) & 0xffff;
                         TR.store(v, Ordering::Relaxed);
-                        push(M_LTR, v, 0, 0, 0, rip);
+                        // ltr marks the TSS descriptor busy in the GDT (type 9 -> 11); done only when a driver
+                        // vouches that the emulated GDTR points to real memory
+                        let (mut lo, mut hi) = (0u64, 0u64);
+                        if LTR_MARKS_BUSY.load(Ordering::Relaxed) != 0 && (v | 7) + 8 <= GDTR[1].load(Ordering::Relaxed) {
+                            let d = (GDTR[0].load(Ordering::Relaxed) + (v & !7)) as *mut u64;
+                            lo = core::ptr::read_volatile(d);
+                            hi = core::ptr::read_volatile(d.add(1));
+                            if (lo >> 40) & 0xf == 9 {
+                                core::ptr::write_volatile(d, lo | (1 << 41));
+                            }
+                        }
+                        push(M_LTR, v, lo, hi, 0, rip);
                         len = i + 3;
                     } else {
                         return unknown(p, rip);
